@@ -691,7 +691,10 @@ def read_fault(trace, f, T, data, enc, model, k, res):
         # the eager path API on the same faulty device: the error must surface from load()
         with _Patched(fs):
             _, lexc = _call(lambda: penman.load(fs.real('/sim/f.penman'), model=model, encoding=enc))
-        if not (isinstance(lexc, OSError) and lexc.errno == errno.EIO):
+        if '/sim/f.penman' not in [p_ for p_, _ in fs.opened[1:]]:
+            # load(path) did not open the file through the shadowed open: no fault could be injected
+            res.hit('probe.fault_not_injectable_open_seam_bypassed')
+        elif not (isinstance(lexc, OSError) and lexc.errno == errno.EIO):
             res.violate('read_fault', 'injected-EIO-did-not-surface', at=at, text=T, api='load(path)',
                         surfaced=digest.canon_exc(lexc) if lexc else None)
     raw_ = getattr(getattr(fh, 'buffer', None), 'raw', None)
